@@ -98,6 +98,51 @@ def same_bytes_oracle(ctx, label, cfg, ops, sizes, n_sched, forced=None):
     return False
 
 
+def boot_hybrid_history(rng, cfg):
+    """edits whose derived data is filled in by the recomputation only: El Torito entries (load RBA, boot info table) and the
+    isohybrid MBR / GPT / APM (boot file location, partition extents)"""
+    ops, sizes = [], {}
+
+    def add(path, size, rrn, **extra):
+        k = len(sizes) + 1
+        sizes[k] = size
+        op = dict(k='add_fp', blob=k, size=size, iso=path, **extra)
+        if cfg.rr:
+            op['rr'] = rrn
+        ops.append(op)
+    for i in range(rng.randrange(0, 3)):
+        add('/A%d.;1' % i, rng.choice([0, 1, 2048, 5000]), 'a%d' % i)
+    add('/ISOLINUX.BIN;1', rng.choice([0x44, 2048, 6000]), 'isolinux.bin', isolinux=True)
+    for i in range(rng.randrange(0, 2)):
+        add('/B%d.;1' % i, rng.choice([1, 3000, 70000]), 'b%d' % i)
+    et = dict(k='add_eltorito', bootfile='/ISOLINUX.BIN;1', catalog='/BOOT.CAT;1', boot_load_size=4)
+    if cfg.rr:
+        et['rr'] = 'boot.cat'
+    if rng.random() < 0.4:
+        et['boot_info_table'] = True
+    ops.append(et)
+    efi = rng.random() < 0.5
+    mac = efi and rng.random() < 0.4
+    if efi:
+        add('/EFI.IMG;1', rng.choice([2048, 9000]), 'efi.img')
+        ops.append(dict(k='add_eltorito_section', bootfile='/EFI.IMG;1', efi=True))
+    if mac:
+        add('/MAC.IMG;1', rng.choice([2048, 9000]), 'mac.img')
+        ops.append(dict(k='add_eltorito_section', bootfile='/MAC.IMG;1', efi=True))
+    kw = {'mbr_id': 0x1234}
+    if efi:
+        kw['efi'] = True
+    if mac:
+        kw['mac'] = True
+    ops.append(dict(k='add_isohybrid', kw=kw))
+    for i in range(rng.randrange(0, 3)):
+        add('/Z%d.;1' % i, rng.choice([1, 2048, 4097]), 'z%d' % i)
+    if rng.random() < 0.2:
+        ops.append(dict(k='rm_isohybrid'))
+        ops.append(dict(k='add_isohybrid', kw=kw))
+    return ops, sizes
+
+
 def report_oracle(cfg, ops, sizes):
     """after force_consistency, locations/lengths reported by record queries equal those in the next image"""
     b = sysimg.build(cfg, ops, sizes)
@@ -220,6 +265,28 @@ def run(ctx):
             from harness import sysrun
             ctx.violation('c06:%s:%s' % (r[0], sysrun.cfg_features(cfg)), 'C06: %s; config %s' % (r[1], cfg.key()),
                           {'config': cfg.key(), 'ops': ops, 'sizes': {str(k): v for k, v in sizes.items()}, 'signature': r[0]})
+    # (4) boot and hybrid edits under schedules (their derived data exists only after a recomputation)
+    from harness import syslevel, sysrun
+    cfgs = [c for c in syslevel.covering_configs(rng, 12) if not c.udf]
+    for i in range(16 if quick else 250):
+        cfg = cfgs[i % len(cfgs)]
+        ops, sizes = boot_hybrid_history(rng, cfg)
+        for op in ops:
+            ctx.count('op:' + op['k'])
+        ctx.case(('boot-hybrid', cfg.key(), repr(ops)), True)
+        # a query right before every edit in turn, then random schedules
+        r = None
+        for kq in range(len(ops) + 1):
+            r = same_bytes_oracle(ctx, 'boot-hybrid', cfg, ops, sizes, 3, forced={kq: [rng.choice(['get_record', 'force', 'list', 'walk'])]})
+            if r:
+                break
+        r = r or same_bytes_oracle(ctx, 'boot-hybrid', cfg, ops, sizes, 4 if quick else 8)
+        if r:
+            sig, text, sch, always = r
+            ctx.violation('c06:%s:%s:%s' % (sig, sysrun.cfg_features(cfg), sysprops.shape_sig(ops)),
+                          'C06: %s; config %s, history %s' % (text, cfg.key(), sysprops.shape_sig(ops, 40)),
+                          {'config': cfg.key(), 'ops': ops, 'sizes': {str(k): v for k, v in sizes.items()},
+                           'schedule': {str(k): v for k, v in sch.items()}, 'always_consistent': always, 'signature': sig})
     ctx.cov['rule'] = ('every history is mastered under 4 (thorough: 12) schedules: lazy and always-consistent mode, with '
                        'force_consistency / get_record / list_children / walk / extra write_fp inserted at random points; images '
                        'compared byte for byte; the stale flag after EVERY call compared with the model; record queries after '
